@@ -509,11 +509,82 @@ func SuccessReturns(fn *ssa.Function) []ssa.Instruction {
 	var out []ssa.Instruction
 	for _, r := range Returns(fn) {
 		ev := retErrVal(r)
-		if ev == nil || mayBeNil(ev, 0) {
+		if ev == nil || (mayBeNil(ev, 0) && !knownNonNilAt(ev, r)) {
 			out = append(out, r)
 		}
 	}
 	return out
+}
+
+// knownNonNilAt: instruction at is dominated by a branch on which v != nil.
+func knownNonNilAt(v ssa.Value, at ssa.Instruction) bool {
+	for _, h := range heldCondVals(at) {
+		b, ok := h.Cond.(*ssa.BinOp)
+		if !ok || (b.Op != token.NEQ && b.Op != token.EQL) {
+			continue
+		}
+		var other, subj ssa.Value
+		if isNilConst(b.Y) {
+			subj, other = b.X, b.Y
+		} else if isNilConst(b.X) {
+			subj, other = b.Y, b.X
+		} else {
+			continue
+		}
+		_ = other
+		if subj != v && !sameLocalLoad(subj, v) {
+			continue
+		}
+		if (b.Op == token.NEQ && h.Pol) || (b.Op == token.EQL && !h.Pol) {
+			return true
+		}
+	}
+	return false
+}
+
+// sameLocalLoad: both are loads of the same local alloc with no store to it in between
+// (approximated: same alloc and the second is in a block dominated by the first's block,
+// and the alloc has no store in any block strictly between — we require a single reaching store).
+func sameLocalLoad(a, b ssa.Value) bool {
+	ua, ok1 := a.(*ssa.UnOp)
+	ub, ok2 := b.(*ssa.UnOp)
+	if !ok1 || !ok2 || ua.Op != token.MUL || ub.Op != token.MUL || ua.X != ub.X {
+		return false
+	}
+	al, ok := ua.X.(*ssa.Alloc)
+	if !ok {
+		return false
+	}
+	// stores to al located in blocks dominated by a's block (other than before a in the same block) break the equality
+	refs := al.Referrers()
+	if refs == nil {
+		return false
+	}
+	for _, r := range *refs {
+		st, ok := r.(*ssa.Store)
+		if !ok || st.Addr != al {
+			continue
+		}
+		if ua.Block().Dominates(st.Block()) && st.Block().Dominates(ub.Block()) {
+			if st.Block() == ua.Block() {
+				// store before load a in same block is fine
+				before := true
+				for _, in := range st.Block().Instrs {
+					if in == ssa.Instruction(ua) {
+						before = false
+					}
+					if in == ssa.Instruction(st) {
+						break
+					}
+				}
+				if before {
+					continue
+				}
+			}
+			return false
+		}
+	}
+	return ua.Block().Dominates(ub.Block())
 }
 
 // phiNilEdges: for a return whose error operand is a phi, returns the set of
@@ -765,4 +836,14 @@ func lookupOf(v ssa.Value) *ssa.Lookup {
 		}
 	}
 	return nil
+}
+
+// allArgs returns the call's arguments with the receiver at index 0 for both
+// static method calls and interface invocations.
+func allArgs(c ssa.CallInstruction) []ssa.Value {
+	cc := c.Common()
+	if cc.IsInvoke() {
+		return append([]ssa.Value{cc.Value}, cc.Args...)
+	}
+	return cc.Args
 }
